@@ -116,7 +116,12 @@ impl BuildOptimiser {
         };
         let kt_ratio = match (self.kt_ratio, self.kt_finish) {
             (Some(ratio), _) => 1. - ratio,
-            (None, Some(finish)) => f64::powf(finish / self.kt_start, 1. / self.steps as f64),
+            // The temperature is reduced once for every inner loop, reaching the finishing
+            // temperature over the number of loops in the run.
+            (None, Some(finish)) => {
+                let loops = u64::max(self.steps / inner_steps, 1);
+                f64::powf(finish / self.kt_start, 1. / loops as f64)
+            }
             (None, None) => 0.1,
         };
         debug!("Setting kt_ratio to: {}", kt_ratio);
